@@ -28,6 +28,12 @@ def adversarial():
                 ["sub", 4, "~A", 2], ["quiesce"], ["dropstream", 4], ["dropstream", 3], ["quiesce"], ["dropstream", 2], ["quiesce"]])
     out.append([["sub", 1, "~B", 2], ["sub", 2, "~B", 2], ["quiesce"], ["asyncdrop", 1], ["quiesce"], ["asyncdrop", 2], ["quiesce"],
                 ["sub", 3, "~B", 2], ["quiesce"], ["dropstream", 3], ["quiesce"]])
+    # one proxy for a well-known name whose first two signal streams are requested at the same time: the hidden
+    # NameOwnerChanged subscription is counted once
+    out.append([["proxysig2", 1, "org.verif.Peer", "A", "B"], ["quiesce"], ["dropproxy", 1], ["quiesce"]])
+    out.append([["busauto", False], ["proxysig2", 1, "org.verif.Peer", "A", "A"], ["pollp", 1], ["quiesce"], ["busreply"], ["quiesce"], ["busreply"], ["quiesce"],
+                ["busreply"], ["quiesce"], ["busauto", True], ["quiesce"], ["proxysig", 2, "org.verif.Peer", "A"], ["quiesce"], ["dropproxy", 1], ["quiesce"],
+                ["dropproxy", 2], ["quiesce"]])
     return out
 
 
@@ -45,7 +51,10 @@ def random_steps(rnd):
             live.remove(s)
             steps.append([rnd.choice(["dropstream", "dropstream", "asyncdrop"]), s])
         elif r < 0.58 and px <= 3:
-            steps += [["proxysig", px, rnd.choice(["org.verif.Peer", ":1.5"]), rnd.choice(["A", "B"])], ["pollp", px]]
+            if rnd.random() < 0.35:
+                steps += [["proxysig2", px, rnd.choice(["org.verif.Peer", ":1.5"]), rnd.choice(["A", "B"]), rnd.choice(["A", "B"])], ["pollp", px]]
+            else:
+                steps += [["proxysig", px, rnd.choice(["org.verif.Peer", ":1.5"]), rnd.choice(["A", "B"])], ["pollp", px]]
             livep.append(px)
             px += 1
         elif r < 0.64 and livep:
